@@ -48,6 +48,9 @@ func genC20(t *rapid.T) c20Prog {
 	bursts := 0
 	for i := 0; i < n; i++ {
 		o := kop{Kind: rapid.SampledFrom(kinds).Draw(t, "kind"), Inst: rapid.IntRange(0, p.Instances-1).Draw(t, "inst"), ID: rapid.IntRange(0, len(idPool)-1).Draw(t, "id")}
+		if o.Kind == "createfail" {
+			o.N = rapid.IntRange(0, 1).Draw(t, "retry") // 1: the creation is tried again at once
+		}
 		if o.Kind == "burst" {
 			if bursts >= 2 {
 				o.Kind = "has"
@@ -143,6 +146,15 @@ func runC20(tb ev.TB, p c20Prog) ev.Result {
 				if _, err := k2.GetKey(ctx, id); err == nil {
 					tb.Fatalf("op #%d: after a failed CreateKey(%q) instance %d returns a key", i, id, si)
 				}
+			}
+			if o.N%2 == 1 {
+				// the caller tries again at once, the datastore works again: an ordinary creation from here on
+				k, err := ks.CreateKey(ctx, id)
+				if err != nil {
+					tb.Fatalf("op #%d CreateKey(%q) again after a failed datastore write: %v", i, id, err)
+				}
+				noteCreate(id, in, i, k)
+				classes["create-retried-after-failing-write"] = true
 			}
 		case "create":
 			if _, exists := model[id]; exists {
